@@ -1,6 +1,7 @@
 /-
 C11 — executable model of `mxlpy/meta/codegen_mxlpy.py`: `_to_symbolic_repr` (102-147) and
-`generate_mxlpy_code_from_symbolic_repr` (184-270), and of what executing the generated source does
+`generate_mxlpy_code_from_symbolic_repr` (after `fix: keep the names generated for initial-assignment and
+stoichiometry functions apart from the component functions`), and of what executing the generated source does
 (`exec(src); create_model()`).
 
 Python functions are entries of a function table (`fid` = object identity): an entry has a
@@ -157,18 +158,27 @@ abbrev Fns := List (String × Def)
 def Fns.put (fs : Fns) (key : String) (f : SymFn) : Fns :=
   omInsert fs key { params := f.args, body := f.expr, src := f.src }
 
+/-- `_free_name(name, taken)`: `while name in taken: name = name + "_"`.  Every iteration meets a
+    different element of `taken`, so `taken.length + 1` iterations always suffice. -/
+def freeNameLoop (taken : List String) : Nat → String → String
+  | 0, name => name
+  | fuel + 1, name => if taken.contains name then freeNameLoop taken fuel (name ++ "_") else name
+
+def freeName (taken : List String) (name : String) : String :=
+  freeNameLoop taken (taken.length + 1) name
+
 /-- `_codegen_variable` / `_codegen_parameter` -/
-def genInit (fs : Fns) : SymVal → Fns × BVal
+def genInit (taken : List String) (fs : Fns) : SymVal → Fns × BVal
   | .num v => (fs, .num v)
   | .fn f =>
-    let key := "init_" ++ f.fnName
+    let key := freeName taken ("init_" ++ f.fnName)
     (fs.put key f, .ref { key, args := f.args, src := f.src })
 
-def genInits (mk : Name → BVal → Call) : List (Name × SymVal) → Fns → Fns × List Call
+def genInits (taken : List String) (mk : Name → BVal → Call) : List (Name × SymVal) → Fns → Fns × List Call
   | [], fs => (fs, [])
   | (k, v) :: rest, fs =>
-    let (fs1, b) := genInit fs v
-    let (fs2, cs) := genInits mk rest fs1
+    let (fs1, b) := genInit taken fs v
+    let (fs2, cs) := genInits taken mk rest fs1
     (fs2, mk k b :: cs)
 
 def genDerived : List (Name × SymFn) → Fns → Fns × List Call
@@ -177,29 +187,35 @@ def genDerived : List (Name × SymFn) → Fns → Fns × List Call
     let (fs2, cs) := genDerived rest (fs.put f.fnName f)
     (fs2, Call.addDerived k { key := f.fnName, args := f.args, src := f.src } :: cs)
 
-def genStoich (rxn : Name) : List (Name × SymVal) → Fns → Fns × List (Name × BVal)
+def genStoich (taken : List String) (rxn : Name) : List (Name × SymVal) → Fns → Fns × List (Name × BVal)
   | [], fs => (fs, [])
   | (v, .num q) :: rest, fs =>
-    let (fs2, st) := genStoich rxn rest fs
+    let (fs2, st) := genStoich taken rxn rest fs
     (fs2, (v, BVal.num q) :: st)
   | (v, .fn f) :: rest, fs =>
-    let key := rxn ++ "_stoich_" ++ f.fnName
-    let (fs2, st) := genStoich rxn rest (fs.put key f)
+    let key := freeName taken (rxn ++ "_stoich_" ++ f.fnName)
+    let (fs2, st) := genStoich taken rxn rest (fs.put key f)
     (fs2, (v, BVal.ref { key, args := f.args, src := f.src }) :: st)
 
-def genReactions : List (Name × SymRxn) → Fns → Fns × List Call
+def genReactions (taken : List String) : List (Name × SymRxn) → Fns → Fns × List Call
   | [], fs => (fs, [])
   | (k, r) :: rest, fs =>
     let fs1 := fs.put r.fn.fnName r.fn
-    let (fs2, st) := genStoich k r.stoich fs1
-    let (fs3, cs) := genReactions rest fs2
+    let (fs2, st) := genStoich taken k r.stoich fs1
+    let (fs3, cs) := genReactions taken rest fs2
     (fs3, Call.addReaction k { key := r.fn.fnName, args := r.fn.args, src := r.fn.src } st :: cs)
 
+/-- names of the functions of derived quantities and reactions: the names generated for initial
+    assignments and stoichiometries are kept apart from them -/
+def takenOf (s : SymRepr) : List String :=
+  s.derived.map (·.2.fnName) ++ s.reactions.map (·.2.fn.fnName)
+
 def genMxlpy (s : SymRepr) : Program :=
-  let (f1, vs) := genInits Call.addVariable s.variables []
-  let (f2, ps) := genInits Call.addParameter s.parameters f1
+  let taken := takenOf s
+  let (f1, vs) := genInits taken Call.addVariable s.variables []
+  let (f2, ps) := genInits taken Call.addParameter s.parameters f1
   let (f3, ds) := genDerived s.derived f2
-  let (f4, rs) := genReactions s.reactions f3
+  let (f4, rs) := genReactions taken s.reactions f3
   { defs := f4, build := vs ++ ps ++ ds ++ rs }
 
 /-! ### executing the generated source -/
